@@ -168,8 +168,8 @@ def replay(path):
         print("model-level finding: re-run ./check C02 to re-derive; case:", d)
         chk.evaluated(("m",)); chk.evaluated(("m2",))
         return chk.finish()
-    seed_, bm, eb = d["sched"]
-    h = ctl.run_case(d["shape"], d["oa"], chk.scratch, ctl.RandomPolicy(seed_, burst_max=bm, env_bias=eb))
+    seed_, bm, eb, cw = d["sched"]
+    h = ctl.run_case(d["shape"], d["oa"], chk.scratch, ctl.RandomPolicy(seed_, burst_max=bm, env_bias=eb, ctrl_weight=cw))
     for e in h.trace:
         print(e["ev"], e["arg"], e["calls"], {k: v["cs"] for k, v in e["st"]["comps"].items()})
     print("final:", {k: v["cs"] for k, v in h.final["comps"].items()}, h.final["verdict"], "stuck:", h.stuck)
